@@ -1,6 +1,8 @@
 package core
 
 import (
+	"encoding/json"
+	"os"
 	"sort"
 	"sync/atomic"
 	"time"
@@ -36,6 +38,10 @@ type Check struct {
 	// Deadline per tier in seconds: the coordinator stops handing out units after it; the run
 	// then ends with exhaustive:false (never with a violation).
 	Deadline func(tier string) int
+	// OwnsCrashes: the property forbids the library to bring the process down (a fatal runtime
+	// error cannot be recovered by Safe). When a worker dies, the coordinator re-runs the unit with a
+	// case journal, and the last journalled case is reported as a violation of clause "fatal".
+	OwnsCrashes bool
 }
 
 var registry = map[string]*Check{}
@@ -103,11 +109,29 @@ var callStart atomic.Int64
 var currentCase atomic.Pointer[Case]
 
 // Do evaluates one case: one state of the exploration (the case) reached by one transition.
+// journal: when VERIF_JOURNAL names a file, every case is appended to it (unbuffered) before it is
+// evaluated, so that the case in flight survives the death of the process.
+var journal *os.File
+
+func init() {
+	if p := os.Getenv("VERIF_JOURNAL"); p != "" {
+		journal, _ = os.OpenFile(p, os.O_CREATE|os.O_WRONLY|os.O_APPEND, 0o644)
+	}
+}
+
+func journalCase(c *Case) {
+	if journal != nil {
+		b, _ := json.Marshal(c)
+		journal.Write(append(b, '\n'))
+	}
+}
+
 func (w *Worker) Do(c Case) Result {
 	w.Evaluations++
 	w.States++
 	w.Transitions++
 	cc := c
+	journalCase(&cc)
 	currentCase.Store(&cc)
 	if !w.Check.Instr {
 		// instrumented checks guard every library call with a statement budget instead; one of
@@ -202,7 +226,11 @@ func (w *Worker) Seen(hash uint64, sample func() Case) {
 }
 
 // Guard marks the library call in flight for the hang watchdog (fast paths call it themselves).
-func Guard(c *Case) { currentCase.Store(c); callStart.Store(time.Now().UnixNano()) }
+func Guard(c *Case) {
+	journalCase(c)
+	currentCase.Store(c)
+	callStart.Store(time.Now().UnixNano())
+}
 func Unguard()      { callStart.Store(0) }
 
 func (w *Worker) violation(c Case, o Obs) {
